@@ -168,3 +168,123 @@ mutant('C04-sf-kT', 'C04', 'R04.k', 'pyPRISM/calculate/structure_factor.py', "  
 mutant('C04-pmf-nokT', 'C04', 'R04.k', 'pyPRISM/calculate/pmf.py', 'rdf = -1.0 * PRISM.sys.kT * np.log(rdf.data)', 'rdf = -1.0 * np.log(rdf.data)')
 mutant('C04-double-kT', 'C04', 'R04.k', 'pyPRISM/core/PRISM.py', "                self.sys.closure[t1,t2].potential = U.calculate(self.sys.domain.r) / self.sys.kT\n            elif", "                self.sys.closure[t1,t2].potential = U.calculate(self.sys.domain.r) / self.sys.kT / self.sys.kT\n            elif")
 mutant('C04-site-asym', 'C04', 'R04.a', 'pyPRISM/core/Density.py', 'self.site[t1,t2] = [rho1 + rho2]', 'self.site[t1,t2] = [rho1 + 2*rho2]')
+
+# ------------------------------------------------------------------------------------------------------------
+# C03 / C09: closures
+# ------------------------------------------------------------------------------------------------------------
+CL = 'pyPRISM/closure/'
+PYF, HNCF, MSAF, MSF = CL + 'PercusYevick.py', CL + 'HyperNettedChain.py', CL + 'MeanSphericalApproximation.py', CL + 'MartynovSarkisov.py'
+mutant('C09-py-one-minus-gamma', ['C09', 'C01'], 'R09.d', PYF, "            self.value = (np.exp(-self.potential)-1.0)*(1.0+gamma)", "            self.value = (np.exp(-self.potential)-1.0)*(1.0-gamma)")
+mutant('C09-py-plus-one', 'C09', 'R09.d', PYF, "self.value[mask] = (np.exp(-self.potential[mask])-1.0)*(1.0+gamma[mask])", "self.value[mask] = (np.exp(-self.potential[mask])+1.0)*(1.0+gamma[mask])")
+mutant('C09-hnc-plus-u', ['C09', 'C01'], 'R09.d', HNCF, "            self.value = np.exp(gamma - self.potential) - 1.0 - gamma", "            self.value = np.exp(gamma + self.potential) - 1.0 - gamma")
+mutant('C09-hnc-branches-disagree', ['C09', 'C03'], 'R03.a', HNCF, "self.value[mask] = np.exp(gamma[mask] - self.potential[mask]) - 1.0 - gamma[mask]", "self.value[mask] = np.exp(gamma[mask] - self.potential[mask]) - 1.0")
+mutant('C09-msa-sign', 'C09', 'R09.d', MSAF, "            self.value = -self.potential\n\n", "            self.value = self.potential\n\n")
+mutant('C03-core-no-gamma', ['C03', 'C09'], 'R03.a', PYF, "            self.value = -1 - gamma\n", "            self.value = -1 - 0*gamma\n")
+mutant('C03-core-plus-gamma', ['C03', 'C09'], 'R03.a', HNCF, "            self.value = -1 - gamma\n", "            self.value = -1 + gamma\n")
+mutant('C03-mask-ge', ['C03', 'C09'], 'R03.a', MSAF, "            mask = r>self.sigma", "            mask = r>=self.sigma")
+mutant('C03-mask-inverted', ['C03', 'C09'], 'R03.a', MSF, "            mask = r>self.sigma", "            mask = r<self.sigma")
+mutant('C03-mask-other-attr', ['C03', 'C09'], 'R03.b', PYF, "            mask = r>self.sigma", "            mask = r>self.potential")
+mutant('C03-noflag-limit', 'C03', 'R03.c', PYF, "            self.value = (np.exp(-self.potential)-1.0)*(1.0+gamma)", "            self.value = (np.exp(-self.potential)-1.0)*(1.0+gamma) + 0.5")
+mutant('C09-gamma-inplace', ['C09', 'C01'], 'R09.p', HNCF, "            self.value = np.exp(gamma - self.potential) - 1.0 - gamma", "            gamma -= self.potential\n            self.value = np.exp(gamma) - 1.0 - gamma - self.potential")
+mutant('C09-value-alias-potential', 'C09', 'R09.p', MSAF, "            self.value = -self.potential\n\n", "            self.value = self.potential\n            self.value *= -1.0\n\n")
+mutant('C09-returns-gamma', 'C09', 'R09.p', MSAF, "            self.value = -self.potential\n\n", "            self.value = gamma\n            self.value *= 0.0\n            self.value -= self.potential\n\n")
+mutant('C09-alias-own-calculate', 'C09', 'R09.a', PYF, "    '''Alias of PercusYevick'''\n    pass", "    '''Alias of PercusYevick'''\n    def calculate(self,r,gamma):\n        return super(PY,self).calculate(r,gamma)*1.0")
+mutant('C09-not-elementwise', 'C09', 'R09.e', MSAF, "            self.value = -self.potential\n\n", "            self.value = -self.potential + 1e-9*np.sum(gamma)\n\n")
+mutant('C09-weak-coupling', 'C09', 'R09.w', HNCF, "            self.value = np.exp(gamma - self.potential) - 1.0 - gamma", "            self.value = np.exp(gamma - self.potential) - 1.0 - 2*gamma")
+mutant('C09-cache-mayer', ['C09', 'C01'], 'R09.h', PYF, "            self.value = (np.exp(-self.potential)-1.0)*(1.0+gamma)",
+       "            if getattr(self,'_f',None) is None:\n                self._f = np.exp(-self.potential)-1.0\n            self.value = self._f*(1.0+gamma)")
+mutant('C09-clamp-gamma', ['C09', 'C03'], None, PYF, "        assert len(gamma) == len(self.potential),'Domain mismatch!'\n", "        assert len(gamma) == len(self.potential),'Domain mismatch!'\n        gamma = np.maximum(gamma,-1.0)\n")
+twin('C09-twin-expm1', ['C09', 'C03', 'C01'], PYF, "            self.value = (np.exp(-self.potential)-1.0)*(1.0+gamma)", "            self.value = np.expm1(-self.potential)*(1.0+gamma)")
+twin('C09-twin-where', ['C09', 'C03', 'C01'], MSAF, "            self.value = -1 - gamma\n\n            # calculate closure outside hard core\n            mask = r>self.sigma\n            self.value[mask] = -self.potential[mask]",
+     "            self.value = np.where(r>self.sigma,-self.potential,-1 - gamma)")
+twin('C09-twin-not-le', ['C09', 'C03'], HNCF, "            mask = r>self.sigma", "            mask = ~(r<=self.sigma)")
+twin('C09-twin-expanded', ['C09', 'C01'], PYF, "            self.value = (np.exp(-self.potential)-1.0)*(1.0+gamma)", "            e = np.exp(-self.potential)\n            self.value = e + e*gamma - 1.0 - gamma")
+twin('C09-twin-exp-split', ['C09', 'C03'], HNCF, "            self.value = np.exp(gamma - self.potential) - 1.0 - gamma", "            self.value = np.exp(gamma)/np.exp(self.potential) - (1.0 + gamma)")
+twin('C09-twin-harmless-cache', ['C09', 'C03', 'C01'], PYF, "            self.value = (np.exp(-self.potential)-1.0)*(1.0+gamma)", "            self.last_gamma = gamma\n            self.value = (np.exp(-self.potential)-1.0)*(1.0+gamma)")
+twin('C09-twin-local-rename', ['C09', 'C03'], MSAF, "            mask = r>self.sigma\n            self.value[mask] = -self.potential[mask]", "            outside = r>self.sigma\n            self.value[outside] = -self.potential[outside]")
+
+# ------------------------------------------------------------------------------------------------------------
+# C10: potentials
+# ------------------------------------------------------------------------------------------------------------
+PO = 'pyPRISM/potential/'
+LJF, HSF, EXF, HCF, WCF = PO + 'LennardJones.py', PO + 'HardSphere.py', PO + 'Exponential.py', PO + 'HardCoreLennardJones.py', PO + 'WeeksChandlerAndersen.py'
+mutant('C10-lj-exponent', 'C10', 'R10.d', LJF, "((s/r)**(12.0) - (s/r)**(6.0))", "((s/r)**(10.0) - (s/r)**(6.0))")
+mutant('C10-lj-shift-plus', 'C10', 'R10.d', LJF, "magnitude -= self.funk(self.rcut,self.sigma)", "magnitude += self.funk(self.rcut,self.sigma)")
+mutant('C10-lj-cut-ge', 'C10', 'R10.d', LJF, "magnitude[r>self.rcut] = 0.0", "magnitude[r>=self.rcut] = 0.0")
+mutant('C10-lj-shift-at-sigma', 'C10', 'R10.k', LJF, "magnitude -= self.funk(self.rcut,self.sigma)", "magnitude -= self.funk(self.sigma*1.5,self.sigma)")
+mutant('C10-hclj-no-two', 'C10', 'R10.d', HCF, "2.0*(sigma/r)**(6.0)", "(sigma/r)**(6.0)")
+mutant('C10-hclj-mask-lt', ['C10', 'C03'], 'R03.d', HCF, "magnitude[r<=self.sigma] = self.high_value", "magnitude[r<self.sigma] = self.high_value")
+mutant('C10-exp-sign', 'C10', 'R10.d', EXF, "lambda r,sigma: - epsilon * np.exp(-(r-sigma)/(alpha))", "lambda r,sigma: epsilon * np.exp(-(r-sigma)/(alpha))")
+mutant('C10-exp-core-ge', ['C10', 'C03'], 'R03.d', EXF, "np.where(r>self.sigma,magnitude,self.high_value)", "np.where(r>=self.sigma,magnitude,self.high_value)")
+mutant('C10-hs-tail', 'C10', 'R10.d', HSF, "np.where(r>sigma,0.0,high_value)", "np.where(r>sigma,1.0,high_value)")
+mutant('C10-hs-core-zero', ['C10', 'C03'], 'R03.d', HSF, "np.where(r>sigma,0.0,high_value)", "np.where(r>sigma,0.0,0.0*high_value)")
+mutant('C10-wca-rcut', 'C10', 'R10.w', WCF, "self.rcut = self.sigma * 2**(1.0/6.0)", "self.rcut = self.sigma * 2**(1.0/3.0)")
+mutant('C10-wca-stale-rcut', 'C10', 'R10.w', WCF, "        self.rcut = self.sigma * 2**(1.0/6.0)\n        return", "        if self.rcut is True:\n            self.rcut = self.sigma * 2**(1.0/6.0)\n        return")
+mutant('C10-writes-r', 'C10', 'R10.p', LJF, "        magnitude = self.funk(r,self.sigma)\n        \n        if self.rcut is not None:", "        r /= self.sigma\n        magnitude = self.funk(r,1.0)\n        \n        if self.rcut is not None:")
+twin('C10-twin-power', 'C10', LJF, "((s/r)**(12.0) - (s/r)**(6.0))", "(np.power(s/r,12.0) - s**6/r**6)")
+twin('C10-twin-where', ['C10', 'C03'], HCF, "        magnitude[r<=self.sigma] = self.high_value\n", "        magnitude = np.where(r<=self.sigma,self.high_value,magnitude)\n")
+twin('C10-twin-lj-factored', 'C10', LJF, "4 * epsilon * ((s/r)**(12.0) - (s/r)**(6.0))", "4 * epsilon * (s/r)**(6.0) * ((s/r)**(6.0) - 1.0)")
+twin('C10-twin-hs-not-le', ['C10', 'C03'], HSF, "np.where(r>sigma,0.0,high_value)", "np.where(r<=sigma,high_value,0.0)")
+
+# ------------------------------------------------------------------------------------------------------------
+# C07 / C08: Domain
+# ------------------------------------------------------------------------------------------------------------
+DO = 'pyPRISM/core/Domain.py'
+mutant('C07-dr-setter-no-build', 'C07', 'R07.i', DO, "        self._dk = np.pi/(self._dr*self._length)\n        self.build_grid()#need to re-build grid since spacing has changed", "        self._dk = np.pi/(self._dr*self._length)")
+mutant('C07-dk-2pi', ['C07', 'C08'], 'R07.i', DO, "        self._dr = value\n        self._dk = np.pi/(self._dr*self._length)", "        self._dr = value\n        self._dk = 2*np.pi/(self._dr*self._length)")
+mutant('C07-stale-long-r', 'C07', 'R07.i', DO, "        self.long_r = self.r.reshape((-1,1,1))\n", "        if not hasattr(self,'long_r'):\n            self.long_r = self.r.reshape((-1,1,1))\n")
+mutant('C07-grid-from-zero', ['C07', 'C08'], 'R07.g', DO, "self.r = self._dr*np.arange(1,self._length+1)", "self.r = self._dr*np.arange(0,self._length)")
+mutant('C07-grid-short', ['C07', 'C08'], 'R07.g', DO, "self.k = self.dk*np.arange(1,self._length+1)", "self.k = self.dk*np.arange(1,self._length)")
+mutant('C08-forward-4pi', ['C08', 'C07'], 'R08.f', DO, "self.DST_II_coeffs = 2.0*np.pi *self.r*self._dr", "self.DST_II_coeffs = 4.0*np.pi *self.r*self._dr")
+mutantN('C08-compensating', 'C08', 'R08.f', [(DO, "self.DST_II_coeffs = 2.0*np.pi *self.r*self._dr", "self.DST_II_coeffs = 4.0*np.pi *self.r*self._dr"),
+                                             (DO, "self.DST_III_coeffs = self.k * self.dk/(4.0*np.pi*np.pi)", "self.DST_III_coeffs = self.k * self.dk/(8.0*np.pi*np.pi)")])
+mutant('C08-dst-type', ['C08', 'C07'], 'R08.f', DO, "return dst(self.DST_II_coeffs*array,type=2)/self.k", "return dst(self.DST_II_coeffs*array,type=1)/self.k")
+mutant('C08-dst-ortho', ['C08', 'C07'], 'R08.t', DO, "return dst(self.DST_III_coeffs*array,type=3)/self.r", "return dst(self.DST_III_coeffs*array,type=3,norm='ortho')/self.r")
+mutant('C08-divide-by-r', ['C08', 'C07'], 'R08.f', DO, "return dst(self.DST_II_coeffs*array,type=2)/self.k", "return dst(self.DST_II_coeffs*array,type=2)/self.r")
+mutant('C07-ma-flag-before-loop', 'C07', 'R07.m', DO, "        for (i,j),(t1,t2),pair in marray.iterpairs():\n            marray[t1,t2] = self.to_fourier(pair)\n        \n        marray.space = Space.Fourier",
+       "        marray.space = Space.Fourier\n        for (i,j),(t1,t2),pair in marray.iterpairs():\n            marray[t1,t2] = self.to_fourier(pair)\n")
+mutant('C07-ma-guard-inverted', 'C07', 'R07.m', DO, "        if marray.space == Space.Real:\n            raise ValueError('MatrixArray is marked as already in Real space')", "        if marray.space == Space.Fourier:\n            raise ValueError('MatrixArray is marked as already in Real space')")
+mutant('C07-ma-wrong-transform', 'C07', 'R07.m', DO, "            marray[t1,t2] = self.to_real(pair)", "            marray[t1,t2] = self.to_fourier(pair)")
+mutant('C07-ma-bypass-setter', 'C07', 'R07.m', DO, "            marray[t1,t2] = self.to_real(pair)", "            marray.data[:,i,j] = self.to_real(pair)")
+mutant('C07-nonlinear', 'C07', 'R07.l', DO, "return dst(self.DST_III_coeffs*array,type=3)/self.r", "return dst(self.DST_III_coeffs*array,type=3)/self.r + 1e-3*array*array")
+twin('C07-twin-linspace-free', ['C07', 'C08'], DO, "self.r = self._dr*np.arange(1,self._length+1)", "self.r = self._dr*(np.arange(self._length)+1)")
+twin('C07-twin-dk-property', ['C07', 'C08'], DO, "self.DST_III_coeffs = self.k * self.dk/(4.0*np.pi*np.pi)", "self.DST_III_coeffs = self.k * self._dk/(4.0*np.pi**2)")
+twin('C07-twin-setter-order', ['C07', 'C08'], DO, "        self._length = value\n        self._dk = np.pi/(self._dr*self._length)", "        self._dk = np.pi/(self._dr*value)\n        self._length = value")
+twin('C07-twin-guard-ne', 'C07', DO, "        if marray.space == Space.Real:\n            raise ValueError('MatrixArray is marked as already in Real space')", "        if not (marray.space != Space.Real):\n            raise ValueError('MatrixArray is marked as already in Real space')")
+
+# ------------------------------------------------------------------------------------------------------------
+# C13: MatrixArray
+# ------------------------------------------------------------------------------------------------------------
+MA = 'pyPRISM/core/MatrixArray.py'
+mutant('C13-isub-new-object', 'C13', 'R13.4', MA, "            self.data -= other\n        return self", "            self.data -= other\n        return MatrixArray(length=self.length,rank=self.rank,data=self.data,space=self.space,types=self.types)")
+mutant('C13-add-inplace-alias', 'C13', 'R13.3', MA, "            data = self.data + other.data\n", "            data = self.data\n            data += other.data\n")
+mutant('C13-einsum-transposed', ['C13', 'C01'], 'R13.6', MA, "            data = np.einsum('lij,ljk->lik', self.data, other.data)", "            data = np.einsum('lij,lkj->lik', self.data, other.data)")
+mutant('C13-guard-and', 'C13', 'R13.2', MA, "    def __isub__(self,other):\n        if isinstance(other,MatrixArray):\n            assert (self.space == other.space) or (Space.NonSpatial in (self.space,other.space)),MatrixArray.SpaceError",
+       "    def __isub__(self,other):\n        if isinstance(other,MatrixArray):\n            assert (self.space == other.space) and (Space.NonSpatial in (self.space,other.space)),MatrixArray.SpaceError")
+mutant('C13-guard-dropped', 'C13', 'R13.2', MA, "        '''Scalar or elementwise multiplication'''\n        if isinstance(other,MatrixArray):\n            assert (self.space == other.space) or (Space.NonSpatial in (self.space,other.space)),MatrixArray.SpaceError\n            data = self.data * other.data", "        '''Scalar or elementwise multiplication'''\n        if isinstance(other,MatrixArray):\n            data = self.data * other.data")
+mutant('C13-setter-no-mirror', ['C13', 'C04', 'C15'], 'R13.9', MA, "        if not (index1 == index2):\n            self.data[:,index2,index1] = val\n", "")
+mutant('C13-getter-transposed-index', 'C13', 'R13.9', MA, "            raise ValueError('This MatrixArray has types: {}. You requested type: \\'{}\\''.format(self.types,type2))\n\n        return self.data[:,index1,index2]", "            raise ValueError('This MatrixArray has types: {}. You requested type: \\'{}\\''.format(self.types,type2))\n\n        return self.data[:,index1,index1]")
+mutant('C13-invert-shares', 'C13', 'R13.7', MA, "        data = np.linalg.inv(self.data)\n", "        data = np.linalg.inv(self.data)\n        self.data[...] = data\n")
+mutant('C13-sub-swapped', ['C13', 'C01'], 'R13.5', MA, "            data = self.data - other.data", "            data = other.data - self.data")
+mutant('C13-imul-writes-other', 'C13', 'R13.4', MA, "            self.data *= other.data\n", "            other.data *= self.data\n            self.data = other.data\n")
+mutant('C13-iterpairs-strict', ['C13', 'C04'], 'R13.i', MA, "            if i<=j: #upper triangle condition", "            if i<j: #upper triangle condition")
+twin('C13-twin-commuted', ['C13', 'C01'], MA, "            data = self.data + other.data", "            data = other.data + self.data")
+twin('C13-twin-guard-order', 'C13', MA, "    def __add__(self,other):\n        if isinstance(other,MatrixArray):\n            assert (self.space == other.space) or (Space.NonSpatial in (self.space,other.space)),MatrixArray.SpaceError",
+     "    def __add__(self,other):\n        if isinstance(other,MatrixArray):\n            assert (Space.NonSpatial in (self.space,other.space)) or (other.space == self.space),MatrixArray.SpaceError")
+twin('C13-twin-matmul-einsum', ['C13', 'C01'], MA, "            data = np.einsum('lij,ljk->lik', self.data, other.data)", "            data = np.einsum('nab,nbc->nac', self.data, other.data)")
+
+# more twins for the remaining properties
+twin('C04-twin-chi-swap-roles', ['C04', 'C05'], 'pyPRISM/calculate/chi.py', "C_BB = PRISM.directCorr[t2,t2]", "C_BB = PRISM.directCorr[t2,t2] * 1.0")
+twin('C16-twin-local-closure', ['C16', 'C01', 'C04'], PR, "                self.sys.closure[t1,t2].sigma = self.sys.diameter[t1,t2]\n                self.sys.closure[t1,t2].potential = U.calculate(self.sys.domain.r) / self.sys.kT", "                clos = self.sys.closure[t1,t2]\n                clos.sigma = self.sys.diameter[t1,t2]\n                clos.potential = U.calculate(self.sys.domain.r) / self.sys.kT")
+twin('C14-twin-setunset-eq', 'C14', PT, "            if v is None:\n                self[t1,t2] = value", "            if not (v is not None):\n                self[t1,t2] = value")
+twin('C17-twin-volfrac', 'C17', UCF, "(diameter/2.0)**(3.0)", "(diameter**3.0/8.0)")
+twin('C15-twin-site-commuted', ['C15', 'C04', 'C01'], D, 'self.site[t1,t2] = [rho1 + rho2]', 'self.site[t1,t2] = [rho2 + rho1]')
+twin('C12-twin-shape-len', 'C12', FA, "self.value.shape[0] == k.shape[0]", "len(self.value) == len(k)")
+
+# cooperating sites: a derived inverse temperature that IS kept in sync through a property (twin) vs one that is not
+twinN('C16-twin-beta-property', ['C16', 'C01', 'C04'], [
+    (SY, "    def check(self):", "    @property\n    def kT(self):\n        return self._kT\n    @kT.setter\n    def kT(self,value):\n        self._kT = value\n        self.beta = 1.0/value\n\n    def check(self):"),
+    (PR, "                self.sys.closure[t1,t2].potential = U.calculate(self.sys.domain.r) / self.sys.kT\n            elif", "                self.sys.closure[t1,t2].potential = U.calculate(self.sys.domain.r) * self.sys.beta\n            elif")])
+mutantN('C16-beta-stale', ['C16', 'C01', 'C04'], 'R16.w', [
+    (SY, "        self.kT = kT\n", "        self.kT = kT\n        self.beta = 1.0/kT\n"),
+    (PR, "                self.sys.closure[t1,t2].potential = U.calculate(self.sys.domain.r) / self.sys.kT\n            elif", "                self.sys.closure[t1,t2].potential = U.calculate(self.sys.domain.r) * self.sys.beta\n            elif")])
